@@ -28,6 +28,8 @@ const QSETS: &[QuerySet] = &[
     QuerySet { id: "stmtn", lang: "stmt", tags: include_str!("stmtn_tags.scm"), locals: "" },
     // docs: after the node, second strip regex, no selection, selection relative to @name, shared kind name
     QuerySet { id: "stmtd", lang: "stmt", tags: include_str!("stmtd_tags.scm"), locals: "" },
+    // doc nodes spanning several rows (block comments; NEW zoo grammar stmtb = stmt + `/* … */` extras)
+    QuerySet { id: "stmtb", lang: "stmtb", tags: include_str!("stmtb_tags.scm"), locals: "" },
     // a match that arrives after later names were flushed (corpus only)
     QuerySet { id: "stmto", lang: "stmt", tags: include_str!("stmto_tags.scm"), locals: "" },
 ];
@@ -392,6 +394,7 @@ fn pkb(rng: &mut Rng) -> &'static [u8] {
 }
 
 struct Layout {
+    block: bool, // doc nodes may be block comments spanning rows (grammar stmtb)
     nl: &'static str,
     same_line: usize, // chance in 8 that two statements share a line
     long: bool,
@@ -447,6 +450,31 @@ fn sep(rng: &mut Rng, lay: &Layout, indent: usize, s: &mut String) {
     }
 }
 
+/// One doc node: a `//` comment, or (layout.block) a block comment spanning 1–4 rows whose inner rows may
+/// themselves start with `//` or `/` (strip must be per node, not per row).
+fn doc_node(rng: &mut Rng, lay: &Layout, indent: usize, s: &mut String) {
+    if lay.block && rng.chance(1, 2) {
+        s.push_str(pk(rng, &["/* ", "/*", "/** ", "/*\u{a0}"]));
+        let rows = rng.range(1, 4);
+        for r in 0..rows {
+            s.push_str(pk(rng, &["block", "// inner", "/ x", "données €", "", "two  words", "* star"]));
+            if r + 1 < rows {
+                s.push_str(lay.nl);
+                if rng.chance(1, 6) {
+                    s.push_str(lay.nl); // blank row INSIDE the node (no gap for the chain)
+                }
+                for _ in 0..indent {
+                    s.push_str("  ");
+                }
+            }
+        }
+        s.push_str(pk(rng, &[" */", "*/", "**/"]));
+    } else {
+        s.push_str(pk(rng, &["// ", "//", "//\t ", "//  ", "/// ", "////", "//\u{a0}", "//\u{3000} ", "// \u{2003}"]));
+        s.push_str(pk(rng, &["doc", "sets the value", "données €", "😀 first", "x", ""]));
+    }
+}
+
 fn stmts(rng: &mut Rng, lay: &Layout, depth: usize, indent: usize, budget: &mut isize, s: &mut String) {
     let n = rng.range(1, if lay.long { 14 } else { 6 });
     for _ in 0..n {
@@ -458,10 +486,14 @@ fn stmts(rng: &mut Rng, lay: &Layout, depth: usize, indent: usize, budget: &mut 
             0 | 1 | 2 => {
                 if rng.chance(1, 3) {
                     // doc comments (only meaningful at a line start; still legal elsewhere)
-                    let k = rng.range(1, 3);
+                    let k = rng.range(1, if lay.block { 4 } else { 3 });
                     for j in 0..k {
-                        s.push_str(pk(rng, &["// ", "//", "//\t ", "//  ", "/// ", "////", "//\u{a0}", "//\u{3000} ", "// \u{2003}"]));
-                        s.push_str(pk(rng, &["doc", "sets the value", "données €", "😀 first", "x", ""]));
+                        let before = s.len();
+                        doc_node(rng, lay, indent, s);
+                        if lay.block && s[before..].starts_with("/*") && rng.chance(1, 5) {
+                            s.push(' '); // next doc node / the statement on the row where the block comment ends
+                            continue;
+                        }
                         s.push_str(lay.nl);
                         if j + 1 < k && rng.chance(1, 6) {
                             s.push_str(lay.nl); // gap: the upper comments are not adjacent
@@ -483,8 +515,12 @@ fn stmts(rng: &mut Rng, lay: &Layout, depth: usize, indent: usize, budget: &mut 
                     let k = rng.range(1, 3);
                     for j in 0..k {
                         s.push_str(if j == 0 { " " } else { "" });
-                        s.push_str(pk(rng, &["// ", "//", "/// ", "//\u{a0}\u{a0}", "////\t"]));
-                        s.push_str(pk(rng, &["after", "trailing €", "", "t"]));
+                        if lay.block && rng.chance(1, 2) {
+                            doc_node(rng, lay, indent, s);
+                        } else {
+                            s.push_str(pk(rng, &["// ", "//", "/// ", "//\u{a0}\u{a0}", "////\t"]));
+                            s.push_str(pk(rng, &["after", "trailing €", "", "t"]));
+                        }
                         s.push_str(lay.nl);
                         if rng.chance(1, 5) {
                             s.push_str(lay.nl);
@@ -548,9 +584,10 @@ fn stmts(rng: &mut Rng, lay: &Layout, depth: usize, indent: usize, budget: &mut 
     }
 }
 
-fn gen_stmt(rng: &mut Rng) -> (Vec<u8>, &'static str) {
+fn gen_stmt(rng: &mut Rng, block: bool) -> (Vec<u8>, &'static str) {
     let kind = rng.below(10);
     let lay = Layout {
+        block,
         nl: if rng.chance(1, 4) { "\r\n" } else { "\n" },
         same_line: match kind { 0..=2 => 7, 3..=5 => 4, _ => 2 },
         long: kind <= 2,
@@ -706,7 +743,10 @@ fn main() {
     let (n_stmt, n_lst, n_fn) = if thorough { (4000, 1500, 40000) } else { (260, 120, 3000) };
     for k in 0..(n_stmt + n_lst) {
         let (qid, (src, class)) = if k < n_stmt {
-            (match k % 9 { 8 => "stmt0", 4 | 6 => "stmtn", 5 | 7 => "stmtd", _ => "stmt" }, gen_stmt(&mut rng))
+            {
+                let q = match k % 9 { 8 => "stmt0", 4 | 6 => "stmtn", 5 => "stmtd", 7 | 2 => "stmtb", _ => "stmt" };
+                (q, gen_stmt(&mut rng, q == "stmtb"))
+            }
         } else {
             ("lst", gen_lst(&mut rng))
         };
